@@ -484,7 +484,7 @@ open Gengo.Loader
 structure Keeps (w : World) (I : U → Prop) : Prop where
   same : ∀ u u' : U, u'.objs = u.objs → u'.types = u.types → u'.builtinObjs = u.builtinObjs → declObjs u' = declObjs u →
     u'.funcs = u.funcs → u'.vars = u.vars → u'.consts = u.consts → I u → I u'
-  add : ∀ (u : U) (ob : GObj) (u' : U), I u → addObj w.bt w.facts w.v2 w.fuel u ob = some u' → I u'
+  add : ∀ (u : U) (ob : GObj) (u' : U), (∃ p ∈ w.pkgs, ob ∈ p.scope) → I u → addObj w.bt w.facts w.v2 w.fuel u ob = some u' → I u'
 
 theorem package_idx (u : U) (p : Str) : (u.package p).funcs = u.funcs ∧ (u.package p).vars = u.vars ∧ (u.package p).consts = u.consts := by
   unfold U.package; split <;> exact ⟨rfl, rfl, rfl⟩
@@ -508,20 +508,24 @@ theorem addImports_idx (u : U) (p : Str) (imps : List Str) :
   exact ⟨a.trans a', b.trans b', c.trans c'⟩
 
 theorem Keeps.addObjs {w : World} {I : U → Prop} (k : Keeps w I) :
-    ∀ (obs : List GObj) (u u' : U), I u → addObjs w.bt w.facts w.v2 w.fuel u obs = some u' → I u' := by
+    ∀ (obs : List GObj) (u u' : U), (∀ ob ∈ obs, ∃ p ∈ w.pkgs, ob ∈ p.scope) → I u →
+      addObjs w.bt w.facts w.v2 w.fuel u obs = some u' → I u' := by
   intro obs
   induction obs with
-  | nil => intro u u' h hf; simp only [Universe.addObjs, Option.some.injEq] at hf; subst hf; exact h
+  | nil => intro u u' _ h hf; simp only [Universe.addObjs, Option.some.injEq] at hf; subst hf; exact h
   | cons ob rest ih =>
-    intro u u' h hf
+    intro u u' hm h hf
     simp only [Universe.addObjs] at hf
     cases ha : addObj w.bt w.facts w.v2 w.fuel u ob with
     | none => simp [ha] at hf
     | some u1 =>
       simp only [ha] at hf
-      exact ih u1 u' (k.add u ob u1 h ha) hf
+      exact ih u1 u' (fun o ho => hm o (List.mem_cons_of_mem _ ho)) (k.add u ob u1 (hm ob List.mem_cons_self) h ha) hf
 
-theorem Keeps.scanPkg {w : World} {I : U → Prop} (k : Keeps w I) (u : U) (p : GPkg) (u' : U) (h : I u)
+theorem World.find_mem {w : World} {path : Str} {p : GPkg} (h : w.find path = some p) : p ∈ w.pkgs :=
+  List.mem_of_find?_eq_some h
+
+theorem Keeps.scanPkg {w : World} {I : U → Prop} (k : Keeps w I) (u : U) (p : GPkg) (hp : p ∈ w.pkgs) (u' : U) (h : I u)
     (hf : scanPkg w.bt w.facts w.v2 w.fuel u p = some u') : I u' := by
   unfold Universe.scanPkg at hf
   obtain ⟨a, b, c, d⟩ := package_objs u p.path
@@ -532,7 +536,7 @@ theorem Keeps.scanPkg {w : World} {I : U → Prop} (k : Keeps w I) (u : U) (p : 
   | some u2 =>
     simp only [ha, Option.some.injEq] at hf
     subst hf
-    have h2 := k.addObjs _ _ _ h1 ha
+    have h2 := k.addObjs _ _ _ (fun ob ho => ⟨p, hp, ho⟩) h1 ha
     obtain ⟨a', b', c', d'⟩ := addImports_same u2 p.path (p.imports.mergeSort Str.le)
     obtain ⟨af, av, ac⟩ := addImports_idx u2 p.path (p.imports.mergeSort Str.le)
     exact k.same _ _ a' b' c' d' af av ac h2
@@ -563,7 +567,7 @@ theorem Keeps.visitV2 {w : World} {I : U → Prop} (k : Keeps w I) :
           | none => simp [ha] at h
           | some u3 =>
             simp only [ha] at h
-            have h3 := k.addObjs _ _ _ h2 ha
+            have h3 := k.addObjs _ _ _ (fun ob ho => ⟨p, World.find_mem hf, ho⟩) h2 ha
             generalize hst3 : ({ u := u3, requested := st.requested, processed := st.processed ++ [path] } : LState) = st3 at h
             cases hfold : p.imports.foldl (fun acc i => acc.bind (fun s => Loader.visitV2 w n s i)) (some st3) with
             | none => simp [hfold] at h
@@ -606,7 +610,7 @@ theorem Keeps.findTypesInV1 {w : World} {I : U → Prop} (k : Keeps w I) (st st'
       | some u' =>
         simp only [hs, Option.map_some, Option.some.injEq] at h
         subst h
-        exact k.scanPkg st.u p u' hinv hs
+        exact k.scanPkg st.u p (World.find_mem hf) u' hinv hs
 
 theorem Keeps.findTypesV1 {w : World} {I : U → Prop} (k : Keeps w I) (h0 : I {}) (req : List Str) (st : LState)
     (h : findTypesV1 w req = some st) : I st.u := by
@@ -675,7 +679,7 @@ theorem addObj_ninv {bt : List Builtin} (F : Facts) (v2 : Bool) (hbt : BtKinds b
 
 theorem ninv_keeps (w : World) (hbt : BtKinds w.bt) : Keeps w (NInv w.bt w.facts w.v2) where
   same := fun _ _ ho ht hb hd _ _ _ h => ⟨(inv_of_same ho ht hb hd h.1).1, same_sn ho ht hb h.2⟩
-  add := fun u ob u' h hf => addObj_ninv w.facts w.v2 hbt w.fuel u ob u' h hf
+  add := fun u ob u' _ h hf => addObj_ninv w.facts w.v2 hbt w.fuel u ob u' h hf
 
 theorem ninv_empty (bt : List Builtin) (F : Facts) (v2 : Bool) : NInv bt F v2 {} :=
   ⟨inv_empty bt, ⟨fun n o ob h => by simp [AL.lookup] at h, fun v o h => by simp [AL.lookup] at h⟩⟩
